@@ -301,7 +301,11 @@ func (rm *RequestManager) processResponses(p peer.ID,
 		attribute.Int("blockCount", len(blks)),
 	))
 	defer span.End()
-	filteredResponses := rm.processExtensions(responses, p)
+	// only responses from the peer a request was sent to may reach the response hooks
+	// (which can send update messages and cancel the request on a hook error)
+	filteredResponses := rm.filterResponsesForPeer(responses, p)
+	filteredResponses = rm.processExtensions(filteredResponses, p)
+	// a hook error may have terminated a request: drop what is left for it
 	filteredResponses = rm.filterResponsesForPeer(filteredResponses, p)
 	blkMap := make(map[cid.Cid][]byte, len(blks))
 	for _, blk := range blks {
